@@ -2595,6 +2595,17 @@ class Interp:
                     out.append(v)
         return out
 
+    def _shared_container(self, cls, attr, v, s):
+        """A mutable container bound at class level is one object for the whole run: the first read puts it on the heap (under the class
+        that defines it), later reads and the mutations in between see that object."""
+        if not (self.heap and self.precise_exc and isinstance(v, (list, dict, set)) and self.model is not None):
+            return v
+        owner = self.model.find_attr_class(cls, attr) or cls
+        key = '__cls:%s.%s' % (owner.fullname, attr)
+        if key not in s.env:
+            s.env[key] = v
+        return s.env[key]
+
     def _dynamic_class_attr(self, cls, attr, s):
         """(value,) of a class attribute assigned by the interpreted code (Class.attr = v), looked up along the MRO; None otherwise."""
         if not self.heap or self.model is None or not any(k.startswith('__cls:') for k in s.env):
@@ -2649,7 +2660,7 @@ class Interp:
                        and not (isinstance(base.attrs.get('__dict'), dict) and hasattr(dict, attr)):
                         s.env['__exc'] = 'AttributeError'     # an object built by its own __init__: it has no such attribute
                     return v
-                return v
+                return self._shared_container(base.cls, attr, v, s)
             return TOP
         if isinstance(base, Sym):
             if attr in base.attrs:
@@ -2680,7 +2691,7 @@ class Interp:
                     return {'__name__': base.name, '__qualname__': base.qualname, '__module__': base.module.name}[attr]
                 v = m.class_const(base, attr)
                 if not M.is_unknown(v):
-                    return v
+                    return self._shared_container(base, attr, v, s)
                 o = self._class_level_object(base, attr)
                 if o is not TOP:
                     return o
@@ -2843,7 +2854,14 @@ class Interp:
         out = {}
         for k, v in zip(n.keys, n.values):
             if k is None:
-                self.ev(v, s)
+                d = self.ev(v, s)             # {**mapping}: the entries of that mapping, later ones win
+                if isinstance(d, Obj) and isinstance(d.attrs.get('__dict'), dict):
+                    d = d.attrs['__dict']
+                if isinstance(d, dict):
+                    out.update(d)
+                    continue
+                if self.heap:
+                    self.imprecise.append('{**%s}: the mapping is not determined (line %s)' % (_text(v)[:40], getattr(n, 'lineno', '?')))
                 return TOP
             kk, vv = self.ev(k, s), self.ev(v, s)
             try:
@@ -3349,6 +3367,19 @@ class Interp:
             return (r,)
         if isinstance(fval, M.ClassInfo) or (isinstance(fval, type) and fval in (int, float, str, bool, list, dict, tuple, set)):
             return self._call_via_temp(fval, list(args), kwargs, s, lineno)
+        if callable(fval) and getattr(fval, '__objclass__', None) is dict and args and isinstance(args[0], Obj) \
+           and fval.__name__ in ('get', '__getitem__', '__contains__', 'keys', 'values', 'items', '__len__', 'setdefault', 'pop', '__setitem__', '__delitem__', 'update', 'clear'):
+            # dict.get(obj, key) on an instance of a dict subclass: the entries the object itself holds
+            back = args[0].attrs.get('__dict') if isinstance(args[0].attrs.get('__dict'), dict) else args[0].attrs.get('__items')
+            if isinstance(back, dict):
+                self._pending_exc = None
+                r = self._builtin_method(back, fval.__name__, list(args[1:]), dict(kwargs))
+                if fval.__name__ == '__setitem__' and len(args) == 3 and is_concrete(args[1]):
+                    back[args[1]] = args[2]
+                    r = None
+                if self._pending_exc and self.precise_exc:
+                    s.env['__exc'] = self._pending_exc
+                return (r,)
         if callable(fval) and getattr(fval, '__module__', None) in ('builtins', 'operator', '_operator', 'functools', None) and not isinstance(fval, type):
             # a builtin / operator function or an unbound method of a builtin type, held as a value (str.strip, operator.lt, len)
             args2 = [str(a) if isinstance(a, TextObj) else a for a in args]
@@ -4651,6 +4682,9 @@ class Interp:
                 if self.precise_exc:
                     s.env['__exc'] = 'AttributeError'
                 return TOP
+        if fname == 'type' and 'type' not in s.env and len(args) == 1 and not kwargs and self.heap and isinstance(args[0], Obj) \
+           and isinstance(args[0].cls, M.ClassInfo) and not isinstance(args[0], EnumVal) and '__classobj' not in args[0].attrs:
+            return args[0].cls                # the class of a heap object of the analysed code (when the scenario does not say otherwise)
         if fname == 'type' and 'type' not in s.env and len(args) == 1 and not kwargs and _plain(args[0]) and not isinstance(args[0], (TextObj, TokStr, M._StringLetters)):
             return type(args[0])
         if fname == 'hasattr' and 'hasattr' not in s.env and len(args) == 2 and isinstance(args[1], str) and _plain(args[1]) and _plain(args[0]) \
